@@ -294,6 +294,10 @@ class TrajectoryStore:
         created: datetime | None = None
         """Creation time global attribute value."""
 
+        species_per_file: list[list[Species] | None] | None = None
+        """For merged stores: the species dimension values of each of the
+        NetCDF files (the constituent files need not hold the same species)."""
+
     active_in_thread: int | None = None
     """Thread ID of active TrajectoryStore instance, if any. Multi-threaded
     access is not allowed. This attribute is used to check for this."""
@@ -1480,6 +1484,7 @@ class TrajectoryStore:
             species=species,
             groups=groups,
             size_index=list(itertools.accumulate([len(td) for td in traj_dim])),
+            species_per_file=[self._retrieve_nc_species_values(ds) for ds in dataset],
             title=title,
             comment=comment,
             history=history,
@@ -1643,6 +1648,11 @@ class TrajectoryStore:
                 group_index = index - nc_files.size_index[file_index]
             group = nc_files.groups[fs_name][file_index]
 
+            # Species along the species dimension of the file being read.
+            file_species = nc_files.species
+            if nc_files.species_per_file is not None:
+                file_species = nc_files.species_per_file[file_index]
+
             # Read data from NetCDF variables.
             for name, field in fs.items():
                 if name not in group.variables:
@@ -1654,7 +1664,7 @@ class TrajectoryStore:
                     group_index,
                     name,
                     field,
-                    nc_files.species or [],
+                    file_species or [],
                 )
                 data[name] = val
                 # The number of points is taken from the first pointwise field
